@@ -476,8 +476,10 @@ class ConnectedRemotePeer(RemotePeer):
                         self.host, coinstate_prior.head().height, human(block_hash), str(e)))
                 return
 
-            self.local_peer.disk_interface.save_block(block)
+            # apply first: applying a block that spends a non-existing output raises, and such a block must not be left
+            # behind in the block store's write buffer (where it would make every later flush fail).
             coinstate_changed = coinstate_prior.add_block_no_validation(block)
+            self.local_peer.disk_interface.save_block(block)
 
             if header.in_response_to == 0 or block.height % IBD_VALIDATION_SKIP == 0:
                 # Validation is very slow, and we don't have to validate every block in a blockchain, so
